@@ -599,8 +599,22 @@ def pristine_eval(fn, *args):
 
 
 # ------------------------------------------------------------------ case scheduler
-def _worker(fn, pid, name, tier, kwargs, conn):
+class CaseBudget(BaseException):
+    """raised inside a worker shortly before the parent's wall-clock limit: what was decided so far is reported"""
+
+
+def _worker(fn, pid, name, tier, kwargs, conn, soft_limit=None):
     global PRISTINE
+    if soft_limit:
+        import signal
+
+        def _alarm(signum, frame):
+            raise CaseBudget()
+        try:
+            signal.signal(signal.SIGALRM, _alarm)
+            signal.alarm(max(1, int(soft_limit)))
+        except Exception:
+            pass
     try:
         PRISTINE = Pristine()
     except Exception:
@@ -613,7 +627,13 @@ def _worker(fn, pid, name, tier, kwargs, conn):
         conn.send(("ok", ctx.result()))
     except BaseException as e:
         msg = "%s: %s" % (type(e).__name__, e)
-        if ctx is not None and _encoding_limit(e):
+        if ctx is not None and isinstance(e, CaseBudget):
+            ctx.inconclusive.append("%s: case time budget reached; the remaining obligations of this case were not decided" % name)
+            try:
+                conn.send(("ok", ctx.result()))
+            except Exception:
+                conn.send(("error", msg))
+        elif ctx is not None and _encoding_limit(e):
             # the encoding cannot follow this code shape: the rest of the case is not decided (what was proved stays)
             ctx.inconclusive.append("%s: not encodable beyond this point (%s)" % (name, msg[:300]))
             try:
@@ -650,7 +670,7 @@ def run_cases(pid, tier, cases, jobs=None, case_timeout=600):
         while pending and len(running) < jobs:
             i, (name, fn, kw) = pending.pop(0)
             pc, cc = mp.Pipe(duplex=False)
-            p = mp.Process(target=_worker, args=(fn, pid, name, tier, dict(kw), cc))
+            p = mp.Process(target=_worker, args=(fn, pid, name, tier, dict(kw), cc, max(30, case_timeout - 75)))
             p.start()
             cc.close()
             running[i] = (p, pc, time.time(), name)
